@@ -356,9 +356,11 @@ func cmdCheck(args []string) int {
 		cfg.Pkg = pkgTable[hs.Dir].path
 		cfg.Workers = *workers
 		cfg.Params = map[string]int{}
+		cfg.TimeBudgetS = 900
 		if *tier == "thorough" {
 			cfg.TimeoutMs = 600000
 			cfg.Params["thorough"] = 1
+			cfg.TimeBudgetS = 5400
 		}
 		if hs.Tweak != nil {
 			hs.Tweak(cfg, *tier)
@@ -394,6 +396,9 @@ func cmdCheck(args []string) int {
 		}
 		if res.PathLimit {
 			incon = append(incon, fmt.Sprintf("%s: path limit %d reached", res.Name, cfg.MaxPaths))
+		}
+		if res.TimeLimit {
+			incon = append(incon, fmt.Sprintf("%s: time budget of %d s exhausted after %d paths; the remaining paths were not explored", res.Name, cfg.TimeBudgetS, res.Paths))
 		}
 		for _, l := range hs.Reach {
 			if !res.Reached[l] {
@@ -484,6 +489,12 @@ func cmdCheck(args []string) int {
 				vioLines = append(vioLines, fmt.Sprintf("VIOLATION property=%s replay=%s harness=%s label=%s", id, confirmedPath, hs.Name, label))
 			}
 		}
+	}
+	if incon == nil {
+		incon = []string{}
+	}
+	if knownLines == nil {
+		knownLines = []string{}
 	}
 	ev := map[string]interface{}{}
 	if spec.Extra != nil {
